@@ -15,6 +15,9 @@ pub enum Plan {
     Sizes(Vec<usize>),
     /// a single split point: first reads serve data[..k] (respecting buffer size), later reads the rest
     SplitAt(usize),
+    /// as `Sizes`, and every read that delivers data is preceded by one that fails with `ErrorKind::Interrupted`
+    /// (what a signal without SA_RESTART does to a blocking read; `Read` says the caller retries)
+    Interrupted(Vec<usize>),
 }
 
 pub struct ScriptedReader<'a> {
@@ -24,11 +27,12 @@ pub struct ScriptedReader<'a> {
     step: usize,
     pub reads: u64,
     pub post_eof_reads: u64,
+    intr_next: bool,
 }
 
 impl<'a> ScriptedReader<'a> {
     pub fn new(data: &'a [u8], plan: Plan) -> Self {
-        ScriptedReader { data, pos: 0, plan, step: 0, reads: 0, post_eof_reads: 0 }
+        ScriptedReader { data, pos: 0, plan, step: 0, reads: 0, post_eof_reads: 0, intr_next: true }
     }
     pub fn consumed(&self) -> usize {
         self.pos
@@ -49,10 +53,16 @@ impl<'a> Read for ScriptedReader<'a> {
             }
             return Ok(0);
         }
+        if let Plan::Interrupted(_) = &self.plan {
+            self.intr_next = !self.intr_next;
+            if !self.intr_next {
+                return Err(io::Error::from(io::ErrorKind::Interrupted));
+            }
+        }
         let want = match &self.plan {
             Plan::Fill => rem,
             Plan::Bytewise => 1,
-            Plan::Sizes(v) => {
+            Plan::Sizes(v) | Plan::Interrupted(v) => {
                 let s = if v.is_empty() { rem } else { v[self.step.min(v.len() - 1)] };
                 self.step += 1;
                 s.max(1)
@@ -91,6 +101,11 @@ pub fn plans_for(len: usize, rng: &mut crate::rng::Rng, every_split_max: usize, 
             let mx = (len / 2).max(2);
             v.push(Plan::Sizes((0..n).map(|_| rng.urange(1, mx)).collect()));
         }
+        if nmulti > 0 {
+            let n = rng.urange(1, 6);
+            let mx = (len / 2).max(2);
+            v.push(Plan::Interrupted((0..n).map(|_| rng.urange(1, mx)).collect()));
+        }
     }
     v
 }
@@ -101,6 +116,7 @@ pub fn plan_to_string(p: &Plan) -> String {
         Plan::Bytewise => "bytewise".into(),
         Plan::SplitAt(k) => format!("split@{}", k),
         Plan::Sizes(v) => format!("sizes:{}", v.iter().map(|x| x.to_string()).collect::<Vec<_>>().join(",")),
+        Plan::Interrupted(v) => format!("intr:{}", v.iter().map(|x| x.to_string()).collect::<Vec<_>>().join(",")),
     }
 }
 
@@ -113,6 +129,8 @@ pub fn plan_from_string(s: &str) -> Option<Plan> {
         k.parse().ok().map(Plan::SplitAt)
     } else if let Some(v) = s.strip_prefix("sizes:") {
         v.split(',').map(|x| x.parse().ok()).collect::<Option<Vec<usize>>>().map(Plan::Sizes)
+    } else if let Some(v) = s.strip_prefix("intr:") {
+        v.split(',').map(|x| x.parse().ok()).collect::<Option<Vec<usize>>>().map(Plan::Interrupted)
     } else {
         None
     }
